@@ -873,6 +873,10 @@ func runConcOnce(p *Program, prefix []Step, block Step, cache map[string]concRef
 					// of the wait passes only once the caller has fixed its deadline
 					// (it waits, or is back already): otherwise nobody would end the wait.
 					for spins := 0; spins < 5000; spins++ {
+						// looked at only after a stop of its own: before every decision
+						// the scheduler lets a caller that was just woken run to its
+						// next stop, so what is seen here does not depend on timing
+						sched.Park("gate")
 						recMu.Lock()
 						var first *concRec
 						for _, r := range recs {
@@ -894,7 +898,6 @@ func runConcOnce(p *Program, prefix []Step, block Step, cache map[string]concRef
 						if ok || disk.Dead() {
 							break
 						}
-						sched.Park("gate")
 					}
 				}
 				sched.Park("op")
